@@ -7,8 +7,8 @@
   unbounded: any counter, bound, `for`, `take`, `break` or extra condition makes the translator
   fail), the cycle-vs-block decisions of `Runtime::block`, `BlockOnTransferredOwner::block`,
   `block_transferred`, the assertions of `add_edge`, the skip test of
-  `thread_id_of_transferred_query`, every decision of `transfer_lock` (`thread_changed` of the
-  vacant and occupied arms, the no-op return, the re-pointing loop, what runs under
+  `thread_id_of_transferred_query`, every decision of `transfer_lock` (`(thread_changed,
+  new_mapping)` of the vacant, same-mapping and general occupied arms, the no-op return, the re-pointing loop, what runs under
   `thread_changed`, when the caller blocks), and the statement order of `block_on` /
   `unblock_runtime`.
 
@@ -146,28 +146,79 @@ theorem genlogic_dg_repoint (s : State) (query oldThread oldOwner newOwner fuel 
           simp [repoint_hits, repoint_removes, h1, h2] <;> (try rfl)
       · simp [repoint_hits, h1, ih]
 
-/-- the `match dg.transferred.entry(query)` block: `thread_changed` is `current_thread !=
-    new_owner_thread` in the vacant arm and `true` in the occupied arm; an unchanged
-    `(thread, owner)` pair returns early -/
+/-- the `match dg.transferred.entry(query)` block as the model sees it (`some none` = the entry
+    already holds `(new_owner_thread, new_owner)`; the model's `transferLockCore` then looks at
+    the thread): the model's `transferEntry` is the generated block with the same-mapping arm
+    collapsed and `new_mapping` dropped -/
 theorem genlogic_dg_transfer_entry (s : State) (query cur newOwner nt : Nat) :
-    transferEntry s query cur newOwner nt = transferEntryG s query cur newOwner nt := by
-  unfold transferEntry transferEntryG
+    transferEntry s query cur newOwner nt =
+      if sameMappingG s query newOwner nt then some none
+      else (transferEntryG s query cur newOwner nt).map (Option.map fun r => (r.1, r.2.1)) := by
+  unfold transferEntry transferEntryG sameMappingG
   cases h : s.transferred query with
-  | none => simp [transfer_vacant_thread_changed]
+  | none => simp [transfer_vacant]
   | some x =>
     obtain ⟨oldThread, oldOwner⟩ := x
-    by_cases h1 : oldThread = nt <;> by_cases h2 : oldOwner = newOwner <;>
-      simp [transfer_noop, transfer_occupied_thread_changed, genlogic_dg_repoint, h1, h2] <;> (try rfl)
+    by_cases hs : oldThread = nt ∧ oldOwner = newOwner
+    · simp [transfer_same_mapping, hs.1, hs.2]
+    · have hs' : transfer_same_mapping oldThread oldOwner nt newOwner = false := by
+        simpa [transfer_same_mapping] using hs
+      simp only [hs, hs', Bool.false_eq_true, ↓reduceIte, genlogic_dg_repoint, transfer_occupied]
+      cases tdepsRemove s oldOwner query with
+      | none => rfl
+      | some s1 =>
+        simp only [Option.map]
+        split <;> simp_all
 
-theorem genlogic_dg_thread_changed (cur nt : Nat) :
-    transfer_vacant_thread_changed cur nt = decide (cur ≠ nt) ∧
-    transfer_occupied_thread_changed cur nt = true := by
-  simp [transfer_vacant_thread_changed, transfer_occupied_thread_changed]
+/-- `(thread_changed, new_mapping)` of the three arms: vacant `(current ≠ new owner's thread,
+    true)`; same mapping: early return exactly when the owner runs on the current thread, else
+    `(true, false)` — the waiters of a re-claimed query are handed over, the dependent is not
+    registered again; general occupied arm `(true, true)`; the dependent is registered iff
+    `new_mapping` -/
+theorem genlogic_dg_thread_changed (cur nt : Nat) (b : Bool) :
+    transfer_vacant cur nt = (decide (cur ≠ nt), true) ∧
+    transfer_noop cur nt = decide (cur = nt) ∧
+    transfer_retransfer_same_owner cur nt = (true, false) ∧
+    transfer_occupied cur nt = (true, true) ∧
+    transfer_registers_dependent b = b ∧ transfer_runs_after b = b := by
+  simp [transfer_vacant, transfer_noop, transfer_retransfer_same_owner, transfer_occupied,
+    transfer_registers_dependent, transfer_runs_after]
 
 theorem genlogic_dg_transfer_core (s : State) (query cur newOwner : Nat) (ownerId : SyncOwner) :
     transferLockCore s query cur newOwner ownerId = transferLockCoreG s query cur newOwner ownerId := by
-  simp only [transferLockCore, transferLockCoreG, genlogic_dg_transfer_pre, genlogic_dg_transfer_entry,
-    transfer_runs_after] <;> rfl
+  unfold transferLockCore transferLockCoreG
+  cases hn : newOwnerThread s query newOwner ownerId with
+  | none => rfl
+  | some nt =>
+    simp only [genlogic_dg_transfer_pre]
+    cases hp : evalDep (transfer_pre nt cur) (dependsOn s nt cur) with
+    | none => rfl
+    | some b =>
+      cases b with
+      | false => rfl
+      | true =>
+        simp only [genlogic_dg_transfer_entry]
+        unfold sameMappingG transferEntryG
+        cases h : s.transferred query with
+        | none =>
+          simp [transfer_vacant, transfer_registers_dependent, transfer_runs_after]
+          cases registerDependent _ query newOwner <;> rfl
+        | some x =>
+          obtain ⟨oldThread, oldOwner⟩ := x
+          by_cases hs : transfer_same_mapping oldThread oldOwner nt newOwner = true
+          · by_cases hc : cur = nt <;>
+              simp [hs, hc, transfer_noop, transfer_retransfer_same_owner,
+                transfer_registers_dependent, transfer_runs_after] <;> rfl
+          · simp only [hs, Bool.false_eq_true, ↓reduceIte]
+            cases tdepsRemove s oldOwner query with
+            | none => rfl
+            | some s1 =>
+              simp only [Option.map]
+              cases repointLoopG _ query oldThread oldOwner newOwner (s.bound + 1) newOwner with
+              | none => rfl
+              | some s3 =>
+                simp [transfer_occupied, transfer_registers_dependent, transfer_runs_after]
+                cases registerDependent s3 query newOwner <;> rfl
 
 /-- `transfer_lock`: `unblock_transfer_target` and `update_transferred_edges` run exactly when
     `thread_changed`; afterwards the caller blocks on the new owner iff it is another thread that
